@@ -498,7 +498,7 @@ Definition ex_parent : flow :=
                               rt_cases := []; rt_default := Some 1; rt_result_name := t "Color";
                               rt_categories := [ {| c_id := 1; c_name := t "Other"; c_exit := 1 |};
                                                  {| c_id := 2; c_name := t "No Response"; c_exit := 2 |} ];
-                              rt_wait := Some (Some 2) |};
+                              rt_wait := Some (Some 2); rt_wait_tpls := [] |};
           n_exits := [ {| e_id := 1; e_dest := Some 2 |}; {| e_id := 2; e_dest := None |} ] |};
        {| n_id := 2;
           n_actions := [ {| a_items := [IRef {| r_kind := KFlow; r_id := t "child" |}]; a_behav := BEnterFlow (t "child") false |} ];
